@@ -14,7 +14,7 @@ The Lean matchers are parametric in these two lists, so adding a redirect key or
 host in the source is a harmless edit: the lists change, the model follows, the
 correspondence still agrees.  An edit of the frame, of the flags, or anything that is not a
 finite set of literals is reported as a problem / breaks a table obligation."""
-from translate import generator, lean_str, lean_str_list
+from translate import generator, lean_str, lean_str_list, lean_nat_list
 
 PREFIX = "(?:^|[?&])("
 SUFFIX = ")=([^&]+)"
@@ -71,6 +71,20 @@ def gen_redirect_re():
     keys_src = op[len(PREFIX) : len(op) - len(SUFFIX)]
     keys = _expand_pattern(keys_src)
     hosts = _expand_pattern(m.REDIRECTION_DOMAINS_RE.pattern)
+    # the cleaning class, observed (not read off the pattern text, so a respelling of the pattern is a harmless edit):
+    # what `CONTROL_CHARS_RE.sub("", .)` removes from the string of all code points, and what `str.strip()` removes
+    ctl = getattr(m, "CONTROL_CHARS_RE", None) or importlib.import_module("ural.patterns").CONTROL_CHARS_RE
+    every = [c for c in range(0x110000) if not 0xD800 <= c <= 0xDFFF]
+    kept = set(map(ord, ctl.sub("", "".join(map(chr, every)))))
+    ranges = []
+    for c in every:
+        if c in kept:
+            continue
+        if ranges and ranges[-1][1] == c - 1:
+            ranges[-1][1] = c
+        else:
+            ranges.append([c, c])
+    stripped = [c for c in every if not chr(c).strip()]
     return {
         "RedirectRe.lean": (
             "/-! the regexes of ural/infer_redirection.py as found in the imported module -/\n"
@@ -86,6 +100,10 @@ def gen_redirect_re():
             "def redirectionDomainsFlags : Nat := %d\n"
             "/-- its expansion into literals, in priority order (lower case) -/\n"
             "def cacheHosts : List String := %s\n\n"
+            "/-- the code points `CONTROL_CHARS_RE.sub(\"\", s)` removes (observed on the string of all code points), as ranges -/\n"
+            "def controlRemovedRanges : List (Nat × Nat) := [%s]\n"
+            "/-- the code points `str.strip()` removes on this interpreter -/\n"
+            "def stripRemovedCodes : List Nat := %s\n\n"
             "end Ural.Gen\n"
             % (
                 lean_str(op),
@@ -95,6 +113,8 @@ def gen_redirect_re():
                 lean_str(m.REDIRECTION_DOMAINS_RE.pattern),
                 int(m.REDIRECTION_DOMAINS_RE.flags),
                 lean_str_list(hosts),
+                ", ".join("(%d, %d)" % (a, b) for a, b in ranges),
+                lean_nat_list(stripped),
             )
         )
     }
